@@ -204,6 +204,16 @@ Lemma dot_self_map (f : R -> R) (t : list R) : dot ROps t (map f t) = sum ROps (
 Proof. induction t as [|x t IH]; [reflexivity|]. cbn [map dot sum]. rewrite IH. reflexivity. Qed.
 
 (* ---- small grids for the bounded search of a kernel-level counterexample (a TEST, used only to label a broken tie) ---- *)
+(* ---- entrywise complex kernels (harness/srctie.py, CplxTr): congruence by structure, leaves by ring ---- *)
+Ltac tie_req :=
+  first [ reflexivity | ring
+        | (apply (f_equal2 Rdiv); tie_req) | (apply (f_equal sqrt); tie_req)
+        | (apply (f_equal2 Rmult); tie_req) | (apply (f_equal2 Rplus); tie_req) | (apply (f_equal2 Rminus); tie_req)
+        | (apply (f_equal Ropp); tie_req) ].
+Ltac tie_cplx :=
+  repeat match goal with x : (R * R)%type |- _ => destruct x end;
+  cbn [fst snd]; unfold Rsqr; tie_comp; tie_req.
+
 Definition zgrid : list Z := [-3; -2; -1; 0; 1; 2; 3; 4; 5; 6; 7; 10; 12]%Z.
 Definition ngrid : list nat := [0; 1; 2; 3; 4; 5; 6; 7; 10; 12]%nat.
 Definition ongrid : list (option nat) := None :: map Some ngrid.
